@@ -113,7 +113,8 @@ def rank_min(rep, ex: Explorer):
                 for (kind, name), (init, cs, newv) in ev.vars.items():
                     if kind != "var":
                         continue
-                    if init is not None and any(isinstance(v, Sym) and v.label[:1] == ("rank",) for g, v in cs):
+                    if init is not None and cs:
+                        # a variable that exists before the loop and is replaced inside it: the running minimum
                         accname = name
                         ok_init = isinstance(init, Const) and init.value is None
                         rep.check(ok_init, "RANK.min", site, "initial value", "no world seen yet ⇒ undefined", extracted=repr(init), required="None", function=site)
@@ -122,6 +123,9 @@ def rank_min(rep, ex: Explorer):
                             n += 1
                             okv = isinstance(v, Sym) and v.label == ("rank", ("elem", wv, "key"))
                             rep.check(okv, "RANK.min", site, "candidate", "the candidate is the rank of the world just tested", extracted=repr(v), required="rank_world(world)", function=site)
+        if accname is None:
+            n += _rank_min_collected(rep, site, p, lp, wv)
+            continue
         # guard: updated iff the world satisfies the formula and (unset or strictly smaller)
         upd_guards = []
         for case in lp.cases:
@@ -176,6 +180,62 @@ def rank_min(rep, ex: Explorer):
         ok = isinstance(rv, Sym) and rv.label == ("acc", lp.id, accname)
         rep.check(ok, "RANK.min", site, "result", "the result is the accumulated minimum (None if no world satisfies the formula)", extracted=repr(rv), required="the accumulator", function=site)
     rep.floor("RANK.min update cases", n, 1)
+
+
+def _rank_min_collected(rep, site, p, lp, wv):
+    """RANK.min, second form: the ranks of the worlds that satisfy the formula are collected and the result is their
+    minimum (None when nothing was collected)."""
+    rk = ("rank", ("elem", wv, "key"))
+    n = 0
+    collected = False
+    for case in lp.cases:
+        q = None
+        for ev, Q in iter_events(case.events):
+            if ev.kind == "query":
+                q = ev
+        d = dict(case.guard)
+        sat = None
+        if q is not None:
+            sat = d.get(("sat", q.qid))
+            got = canon_items(flat(q.frames))
+            want = canon_items(world_items(wv) + [("f", PHI)])
+            rep.check(got == want, "RANK.min", f"{site}:{q.node.lineno}", "satisfaction test", "a world counts iff world literals ∧ formula is satisfiable, with nothing else in scope",
+                      extracted=show_items(flat(q.frames)), required=show_items(world_items(wv) + [("f", PHI)]), function=site)
+        apps = [ev for ev, Q in iter_events(case.events) if ev.kind in ("list.append",) and not Q]
+        ranks = [ev for ev in apps if isinstance(ev.value, Sym) and ev.value.label == rk]
+        if apps and len(ranks) != len(apps):
+            rep.violation("RANK.min", site, "candidate", "the candidate is the rank of the world just tested", extracted=repr(apps[0].value), required="rank_world(world)", function=site)
+            continue
+        n += 1
+        collected = collected or bool(ranks)
+        rep.check(bool(ranks) == bool(sat), "RANK.min", site, f"collected sat={sat}", "the rank of a world takes part in the minimum iff the world satisfies the formula", extracted=f"collected={bool(ranks)}", required=f"collected={bool(sat)}", function=site)
+    for ev, Q in iter_events(p.events):
+        if ev.kind in ("loop.unbalanced", "solver.pop-below"):
+            rep.violation("RANK.min", f"{site}:{getattr(ev.node, 'lineno', '?')}", "scope balance", "the world's literals are removed before the next world is tested", extracted=ev.kind, required="balanced push/pop (or a fresh solver) per world", function=site)
+    if not collected:
+        raise AnalysisError(f"{site}: neither a running minimum nor a collection of the ranks of the satisfying worlds was found")
+    rv = p.outcome[1]
+    emp = [v for k, v in p.decisions if k[0] == "empty" and F.mentions(k, {rk}) or (k[0] == "empty" and "rank" in repr(k))]
+    if emp and emp[-1] is True:
+        rep.check(isinstance(rv, Const) and rv.value is None, "RANK.min", site, "result (no model)", "no world satisfies the formula ⇒ undefined", extracted=repr(rv), required="None", function=site)
+        return n
+    ok = False
+    how = repr(rv)[:120]
+    if isinstance(rv, LinV) and len(rv.lin[0]) == 1 and rv.lin[1] == 0 and rv.lin[0][0][1] == 1 and isinstance(rv.lin[0][0][0], tuple):
+        t = rv.lin[0][0][0]
+        if t[0] == "max":
+            rep.violation("RANK.min", site, "result", "the rank of a formula is the least rank of its models", extracted="max(...)", required="min(...)", function=site)
+            return n
+        if t[0] == "min" and len(t) >= 2 and isinstance(t[1], tuple) and len(t[1]) == 1 and t[1][0][0] == "each":
+            _, b, fam, g, val = t[1][0]
+            ok = fam == WORLDS and F.subst_any(val, {b: wv}) == rk and "sat" in repr(g) and not [x for x in t[2:] if isinstance(x, tuple) and x and x[0] == "default"]
+            how = f"min over {F.show_desc(fam)} of {F.show_desc(val)} where {show_pred(g)[:80]}"
+    if not emp and ok:
+        # min(...) of a possibly empty collection without a guard raises for a formula without models
+        rep.violation("RANK.min", site, "result (no model)", "no world satisfies the formula ⇒ undefined (None), not an error", extracted="min of the collected ranks without an emptiness test", required="None when nothing was collected", function=site)
+        return n
+    rep.check(ok, "RANK.min", site, "result", "the result is the minimum of the collected ranks", extracted=how, required="min{rank(w) : w satisfies the formula}", function=site)
+    return n
 
 
 def accept_decision(rep, ex: Explorer):
@@ -394,8 +454,18 @@ def tpo_order(rep, ex: Explorer):
             continue
         srt = [ev for ev, Q in iter_events(p.events) if ev.kind == "sorted"]
         n += 1
-        ok = len(srt) == 1 and srt[0].key is None and (srt[0].reverse is None or (isinstance(srt[0].reverse, Const) and not srt[0].reverse.value))
-        rep.check(ok, "TPO.order", site, "layer order", "layers are ordered by ascending rank", extracted=f"sorted(key={srt[0].key!r}, reverse={srt[0].reverse!r})" if srt else "no sort", required="sorted(ranks) ascending", function=site)
+        asc = len(srt) == 1 and (srt[0].reverse is None or (isinstance(srt[0].reverse, Const) and not srt[0].reverse.value))
+        by_rank = False
+        if len(srt) == 1 and srt[0].key is None:
+            by_rank = True  # the sorted sequence itself is inspected below (keys of the grouping, or (rank, group) pairs)
+        elif len(srt) == 1 and srt[0].data.get("keyvals"):
+            # a key function: it must select the rank of the element (the first component of a (rank, group) pair, or the
+            # element itself when the ranks are what is sorted)
+            by_rank = all(kv == el or (isinstance(el, tuple) and el[:1] == ("tuple",) and len(el) >= 2 and kv == el[1]) for el, kv in srt[0].keyvals)
+        elif len(srt) == 1:
+            raise AnalysisError(f"{site}: layers are sorted by a key function the analysis cannot read")
+        ok = asc and by_rank
+        rep.check(ok, "TPO.order", site, "layer order", "layers are ordered by ascending rank", extracted=f"sorted(key={'none' if srt and srt[0].key is None else 'function'}, keyed by {srt[0].data.get('keyvals')!r}, reverse={srt[0].reverse!r})"[:200] if srt else "no sort", required="sorted by rank, ascending", function=site)
         if srt:
             sv = view(p.state, srt[0].src)
             # the sorted thing: the keys of the group dict = ranks
@@ -504,11 +574,15 @@ def zrank_recursion(rep, ex: Explorer, cls: str):
         return [s, solver, LinV(K)], {}
 
     paths = ex.run(qual, setup, summaries=_summ(), key=f"zrec-{cls}")
-    layer = each_item(layer_fam(K), not_falsified)
-    base = canon_items([HEAD, layer])
+    from .sysz import loop_form, _index_arg
+    Kx, heads, loop_id, idx_name = loop_form(paths, HEAD)  # recursion on k-1, or a loop that decrements the index
+    kterm = Kx[0][0][0]
+    layer = each_item(layer_fam(Kx), not_falsified)
+    base = canon_items(heads + [layer])
     n = 0
     for p in paths:
-        if p.outcome[0] != "return":
+        back = p.outcome[0] == "loopback" and loop_id is not None and p.outcome[1] == loop_id
+        if p.outcome[0] != "return" and not back:
             continue
         qs = [ev for ev, Q in iter_events(p.events) if ev.kind == "query" and not Q]
         if len(qs) != 1:
@@ -516,10 +590,10 @@ def zrank_recursion(rep, ex: Explorer, cls: str):
             continue
         q = qs[0]
         rep.check(canon_items(flat(q.frames)) == base, "ZRANK.recursion", f"{site}:{q.node.lineno}", "layer test scope", "the world is tested against the non-falsification of layers ≥ k",
-                  extracted=show_items(flat(q.frames)), required=show_items([HEAD, layer]), function=site)
+                  extracted=show_items(flat(q.frames)), required=show_items(heads + [layer]), function=site)
         sat = decided(p, ("sat", q.qid))
-        kfacts = [(k, v) for k, v in p.decisions if k[0] == "cmp" and isinstance(k[2], tuple) and k[2][:1] == ("lin",) and all(t == "k" for t, _ in k[2][1][0])]
-        rv = p.outcome[1]
+        kfacts = [(k, v) for k, v in p.decisions if k[0] == "cmp" and isinstance(k[2], tuple) and k[2][:1] == ("lin",) and all(t == kterm for t, _ in k[2][1][0])]
+        rv = p.outcome[1] if not back else None
         recs = [ev for ev, Q in iter_events(p.events) if ev.kind == "recurse"]
         for kv in range(0, 3):
             okk = True
@@ -531,21 +605,33 @@ def zrank_recursion(rep, ex: Explorer, cls: str):
             if not okk:
                 continue
             n += 1
-            if sat is False:
+            if back:
+                # the jump back to the loop head is the continuation with the carried index and solver
+                snapd = p.outcome[2]
+                n_idx = snapd.get(idx_name)
+                ok_rec = n_idx is not None and n_idx[0] == "val" and isinstance(n_idx[1], LinV) and n_idx[1].lin == F.lin_add(Kx, F.lin_const(-1))
+                got = "Rec(k-1)" if ok_rec else f"continues with {n_idx[1]!r}" if n_idx else "continues"
+                want = "k+1" if sat is False else ("0" if kv == 0 else "Rec(k-1)")
+                if ok_rec:
+                    ss = [v for nm, v in snapd.items() if v[0] == "solver"]
+                    ok_s = len(ss) == 1 and canon_items(flat(ss[0][3])) == base
+                    rep.check(ok_s, "ZRANK.recursion", site, "scope at recursion", "the layer constraints persist into the next lower layer (same solver)",
+                              extracted=show_items(flat(ss[0][3])) if ss else "no solver", required=show_items(heads + [layer]), function=site)
+            elif sat is False:
                 want = "k+1"
-                got = "k+1" if isinstance(rv, LinV) and rv.lin == F.lin_add(K, F.lin_const(1)) else repr(rv)
+                got = "k+1" if isinstance(rv, LinV) and rv.lin == F.lin_add(Kx, F.lin_const(1)) else repr(rv)
             elif kv == 0:
                 want = "0"
                 got = "0" if (isinstance(rv, Const) and rv.value == 0) or (isinstance(rv, LinV) and rv.lin == F.lin_const(0)) else repr(rv)
             else:
                 want = "Rec(k-1)"
-                ok_rec = isinstance(rv, Sym) and rv.label[:1] == ("rec",) and len(recs) == 1 and any(isinstance(a, LinV) and a.lin == F.lin_add(K, F.lin_const(-1)) for a in recs[0].args)
+                ok_rec = isinstance(rv, Sym) and rv.label[:1] == ("rec",) and len(recs) == 1 and _index_arg(recs[0]) == F.lin_add(Kx, F.lin_const(-1))
                 got = "Rec(k-1)" if ok_rec else repr(rv)
                 if ok_rec:
                     ss = [s for s in recs[0].snap if s[0] == "solver"]
                     ok_s = len(ss) == 1 and canon_items(flat(ss[0][3])) == base
                     rep.check(ok_s, "ZRANK.recursion", f"{site}:{recs[0].node.lineno}", "scope at recursion", "the layer constraints persist into the next lower layer (same solver)",
-                              extracted=show_items(flat(ss[0][3])) if ss else "no solver", required=show_items([HEAD, layer]), function=site)
+                              extracted=show_items(flat(ss[0][3])) if ss else "no solver", required=show_items(heads + [layer]), function=site)
             rep.check(got == want, "ZRANK.recursion", site, f"sat={sat} k{'=0' if kv == 0 else '>0'}", f"rank outcome {got}", extracted=got, required=want, function=site)
     rep.floor(f"ZRANK.recursion rows of {cls.rsplit('.', 1)[1]}", n, 3)
     # start
@@ -808,6 +894,19 @@ def _fresh_counter(p, fam):
                     if start_ok and step_ok and key_ok:
                         return True
                     return f"start ok={start_ok}, step ok={step_ok}, key ok={key_ok}"
+    # no running variable: the key may be computed from the position directly (enumerate(facts, start=max(keys)+1))
+    for ev, Q in iter_events(p.events):
+        if ev.kind == "dict.set" and Q and Q[-1][0].fam == fam and isinstance(ev.key, LinV):
+            evar = Q[-1][0].evar
+            terms = dict(ev.key.lin[0])
+            pos = terms.pop(("pos", evar, fam), None)
+            mx = [(t, c) for t, c in terms.items() if isinstance(t, tuple) and t and t[0] == "max"]
+            if pos == 1 and len(mx) == 1 and len(terms) == 1 and mx[0][1] == 1:
+                t = mx[0][0]
+                dflt = [x for x in t if isinstance(x, tuple) and x and x[0] == "default"]
+                if "('keys', 'D')" in repr(t) and ev.key.lin[1] >= 1 and (not dflt or dflt[0][1] == ("c", 0)):
+                    return True
+                return f"key {ev.key!r} is not above the highest key of the base"
     return "no running key found"
 
 
@@ -1214,9 +1313,33 @@ def impacts_accept(rep, ex: Explorer):
             return "other:" + show_pred(key)[:120] if val is True else None
         return "other:" + show_pred(key)[:120]
 
+    def classify_exit(p, loop_id, choice):
+        """A search loop over the vector that leaves at the first offending element says ∃ element: <its guard>; running
+        to completion says no element is offending."""
+        if choice == "complete":
+            return None
+        for ev, Q in iter_events(p.events):
+            if ev.kind == "loop" and ev.id == loop_id and ev.fam == IMP:
+                case = (ev.data.get("exits") or [])[choice]
+                b = ev.evar
+                out = []
+                for k, v in case.guard:
+                    if k[:1] == ("isinstance",) and "int" in repr(k) and v is False:
+                        out.append("not all integers")
+                    elif k[0] == "cmp" and k[1] == "<" and k[2] == ("lin", (((("impval", b), 1),), 0)) and k[3] == ("c", 0) and v is True:
+                        out.append("a negative value")
+                    elif k[:1] == ("isinstance",) and "int" in repr(k) and v is True:
+                        continue
+                    elif k[0] == "cmp" and k[1] == "<" and k[2] == ("lin", (((("impval", b), 1),), 0)) and k[3] == ("c", 0) and v is False:
+                        continue
+                    else:
+                        out.append("other:" + show_pred(k)[:100])
+                return out[0] if len(out) == 1 else ("other:" + "; ".join(out) if out else "other:unconditional exit")
+        return f"other:loopexit({loop_id})"
+
     n = 0
     for p in paths:
-        why = [classify(k, v) for k, v in p.decisions]
+        why = [classify_exit(p, k[1], v) if k[0] == "loopexit" else classify(k, v) for k, v in p.decisions]
         why = [w for w in why if w]
         if p.outcome[0] == "raise":
             n += 1
